@@ -29,7 +29,7 @@ ASSUMPTIONS = [
     "values come from small domains; backend=None passed explicitly to a context is outside the domain",
 ]
 SHARDS = {"quick": 12, "thorough": 14}
-FLOORS = {"quick": {"observations": 20000, "thread_interleaved_observations": 3000, "exception_exits": 300, "contexts_created_without_with_inside_a_block": 300, "blocks_left_through_generator_close": 150},
+FLOORS = {"quick": {"observations": 20000, "thread_interleaved_observations": 3000, "exception_exits": 300, "contexts_created_without_with_inside_a_block": 300, "blocks_left_through_generator_close": 150, "effect_observations_with_a_memmapped_argument": 20},
           "thorough": {"observations": 600000, "thread_interleaved_observations": 100000, "exception_exits": 10000, "contexts_created_without_with_inside_a_block": 8000, "blocks_left_through_generator_close": 4000}}
 
 KEYS = ["backend", "n_jobs", "verbose", "prefer", "require", "max_nbytes", "mmap_mode", "temp_folder"]
@@ -259,6 +259,8 @@ def cases(tier, seed):
     n = 900 if tier == "quick" else 30000
     for j in range(n):
         yield dict(kind="random", i=j)
+    for j in range(8 if tier == "quick" else 80):
+        yield dict(kind="effects", i=j)
 
 
 def effective(cfg):
@@ -411,7 +413,74 @@ def run_program(threads_spec, ctx):
         ctx.violation("leak-into-other-thread", f"main thread observes {got} after program", dict(got=got))
 
 
+def run_effects(case, ctx):
+    """what the workers really get: a sequence of calls of one process (the loky executor is reused from call to call) under
+    changing temp_folder / max_nbytes / mmap_mode settings - the argument of each call must be mapped from the folder, and
+    with the mode, that the settings in force for THAT call resolve to"""
+    import json
+    import os
+    import shutil
+    rng = harness.rng_for(ctx.seed, ID, "effects", case["i"])
+    harness.ensure_deps("numpy")
+    d = harness.mkscratch("vjl-c17e-")
+    try:
+        folders = {"A": os.path.join(d, "tfA"), "B": os.path.join(d, "tfB")}
+        for f in folders.values():
+            os.makedirs(f)
+        dom = {"temp_folder": ["A", "B"], "max_nbytes": [1000, 1000, None], "mmap_mode": ["r", "c"]}
+        steps = []
+        for _ in range(rng.randint(4, 7)):
+            ctxs = [{k: rng.choice(dom[k]) for k in rng.sample(sorted(dom), rng.randint(1, 2))} for _ in range(rng.choice([0, 1, 1, 2]))]
+            explicit = {k: rng.choice(dom[k]) for k in rng.sample(sorted(dom), rng.choice([0, 1, 1, 2]))}
+            steps.append(dict(contexts=ctxs, explicit=explicit, backend=rng.choice(["loky", "loky", "loky", "multiprocessing"])))
+        cf, of = os.path.join(d, "cfg.json"), os.path.join(d, "out.json")
+        with open(cf, "w") as f:
+            json.dump(dict(steps=steps, folders=folders), f)
+        r = harness.run_py([os.path.join(harness.VERIF, "checks", "c17_effects.py"), cf, of], timeout=180, result_file=of, env_extra={"VERIF_USE_DEPS": "1"})
+        ctx.evaluated()
+        if not r["result"]:
+            ctx.inconclusive("effects-child-failed", dict(steps=steps, err=r["err"][-500:]))
+            return
+        for k, (step, o) in enumerate(zip(steps, r["result"]["steps"])):
+            def res(key, default):
+                if key in step["explicit"]:
+                    return step["explicit"][key]
+                for c in reversed(step["contexts"]):
+                    if key in c:
+                        return c[key]
+                return default
+            tf, mx, mode = res("temp_folder", None), res("max_nbytes", "1M"), res("mmap_mode", "r")
+            desc = dict(step=k, steps=steps[:k + 1], resolved=dict(temp_folder=tf, max_nbytes=mx, mmap_mode=mode))
+            ctx.count("effect_observations")
+            if "exc" in o:
+                ctx.violation("effects:call-raised", f"step {k} raised {o['exc']}; {desc}", desc)
+                return
+            for fn, m, total in o["res"]:
+                where = next((n for n, p in folders.items() if fn and fn.startswith(p + os.sep)), None if fn is None else "elsewhere")
+                if total != 12497500.0:
+                    ctx.violation("effects:wrong-values", f"step {k}: the task saw other values (sum {total}); {desc}", desc)
+                    return
+                if mx != 1000:
+                    if fn is not None:
+                        ctx.violation("effects:max_nbytes", f"step {k}: max_nbytes resolves to {mx!r} but the 40 KB argument was memory-mapped from {where}; {desc}", desc)
+                        return
+                    continue
+                ctx.count("effect_observations_with_a_memmapped_argument")
+                want = tf if tf is not None else "elsewhere"
+                if where != want:
+                    ctx.violation("effects:temp_folder", f"step {k}: temp_folder resolves to {tf!r} but the worker's argument is mapped from {where!r} ({fn}); {desc}", desc)
+                    return
+                if m != mode:
+                    ctx.violation("effects:mmap_mode", f"step {k}: mmap_mode resolves to {mode!r} but the worker's argument is mapped with mode {m!r}; {desc}", desc)
+                    return
+        ctx.sig(("effects", json.dumps(steps, sort_keys=True)))
+    finally:
+        shutil.rmtree(d, ignore_errors=True)
+
+
 def run_case(case, ctx):
+    if case["kind"] == "effects":
+        return run_effects(case, ctx)
     backends()
     if case["kind"] == "enum":
         rng = harness.rng_for(ctx.seed, ID, "enum", case["i"])
